@@ -111,7 +111,10 @@ def applyOp (st : St) (op : List String) : St :=
         | some old => { st1 with cs := st1.cs.map fun x => if x.name = c then
             { x with stale := some (match old.stale with | some s => s | none => (old.purchased, old.startedAt, old.len, old.host)), liveSince := none } else x }
         | none => st1
-      else { st1 with cs := st1.cs.map fun x => if x.name = c then { x with stale := none } else x }
+      else
+        -- a terms update makes the node read the new terms, not the destination: what it missed about the destination stays missed
+        let rereadsAll : Bool := match op with | "termsupdate" :: _ => false | _ => true
+        { st1 with cs := st1.cs.map fun x => if x.name == c && rereadsAll then { x with stale := none } else x }
 
 def monObs (st : St) (op : List String) (outs : List (List String)) : St × List String :=
   let before := st
